@@ -47,6 +47,13 @@ theorem simpleB_iff {ns : List Nat} {es : List (Nat × Nat)} :
     simpleB ns es = true ↔ Simple ns es :=
   ⟨PeelCheck.simpleB_sound, PeelCheck.simpleB_complete⟩
 
+-- the acyclicity clause of the spec is not hollow: a triangle is connected and simple but `Acyclic` fails for it
+example : ¬ Acyclic [(0, 1), (1, 2), (2, 0)] := by
+  intro h
+  have := (isTree_iff (ns := [0, 1, 2]) (simpleB_iff.1 (by decide))).2
+    ⟨by decide, connectedB_iff.1 (by decide), h⟩
+  exact absurd this (by decide)
+
 /-- Rank/parent witness ⇒ no simple cycle ("each removed leaf has exactly one neighbour, removed
     strictly later or never"): the core of both the tree checker and the peel proof. -/
 theorem acyclic_of_rank (es : List (Nat × Nat)) (p : Nat → Nat) (r : Nat → Int)
@@ -64,6 +71,10 @@ example : Acyclic [(1, 0), (1, 2)] :=
 theorem tree_has_leaf {ns : List Nat} {es : List (Nat × Nat)} (hs : Simple ns es)
     (ht : IsTree ns es) (h2 : 2 ≤ ns.length) : ∃ v, v ∈ ns ∧ degree es v = 1 :=
   PeelLeaf.tree_has_leaf hs ht h2
+
+-- non-vacuity of tree_has_leaf: the path 0–1–2–3 satisfies all three hypotheses
+example : ∃ v, v ∈ [0, 1, 2, 3] ∧ degree [(0, 1), (1, 2), (2, 3)] v = 1 :=
+  tree_has_leaf (simpleB_iff.1 (by decide)) (isTree_sound (by decide)) (by decide)
 
 /-- the peel checker run on the C++ output is sound for the property text -/
 theorem peelOk_sound {ns : List Nat} {es : List (Nat × Nat)} {trees : List TreeOut}
@@ -110,6 +121,12 @@ theorem peel_core {ns : List Nat} {es : List (Nat × Nat)} {out : PeelOut} (hs :
     out.coreNodes.Sublist ns ∧ out.coreNodes.Nodup ∧
     out.coreEdges = es.filter (fun e => out.coreNodes.contains e.1 && out.coreNodes.contains e.2) ∧
     NoDegreeOne out.coreNodes out.coreEdges := PeelModel.peel_core hs h
+
+-- non-vacuity of peel_core: a simple graph that is NOT connected (triangle + a separate edge)
+example : ∃ out, peel [0, 1, 2, 3, 4] [(0, 1), (1, 2), (2, 0), (3, 4)] = some out ∧
+    NoDegreeOne out.coreNodes out.coreEdges :=
+  let ⟨out, h⟩ := peel_total _ _
+  ⟨out, h, (peel_core (simpleB_iff.1 (by decide)) h).2.2.2⟩
 
 /-- a tree input peels away completely into one tree (core = its centre, or empty for a double
     centre) that contains every node and every edge -/
